@@ -78,7 +78,19 @@ def slow_cycle(k, q_num, tail_owner, numbering_rev):
     return g
 
 
+def very_slow_reach():
+    """A self-loop that reaches the final state with probability eps per step: the reachability loop alone
+    needs 4 x 10^4 (eps = 1/8192) to 2.3 x 10^5 (eps = 1e-5) sweeps.  Solver API only (no reward phase)."""
+    for eps in (1 / 8192, 1e-5):
+        for owner in (P1, P2):
+            g = dict(rewards=[0, 0, 0, 0], players=[owner, PR, PR, PR],
+                     transition_list=[[("a", 2), ("b", 3)], [(1, 1)], [(1 - eps, 2), (eps, 1)], [(0.5, 1), (0.5, 3)]],
+                     final_states=[1])
+            yield dict(kind="solver", game=g, theta=1e-6)
+
+
 def planted_cases():
+    yield from very_slow_reach()
     for k in (2, 4, 6, 8):
         for q_num in (2, 4, 6):
             for owner in (PR, P1, P2):
@@ -270,6 +282,13 @@ def compare_exact(v, game, facts, phat, pstar, theta, sweeps, label):
         if facts.too_slow:
             v.cls("T>300")
     jac = None
+    # the stop rule (largest change of a Gauss-Seidel sweep <= theta) implies a Jacobi residual <= theta
+    # on every game, stopping or not
+    if all(isinstance(x, (int, float)) and x == x for x in phat):
+        res0 = bellman_reach(game, phat)
+        worst0 = max(abs(a - b) for a, b in zip(res0, phat))
+        if worst0 > theta + SLACK:
+            v.fail("residual-above-threshold", f"{label}: |B p - p| = {worst0:.3g} > theta = {theta}")
     for s in range(n):
         ph, ps = phat[s], pstar[s]
         if s in finals:
@@ -293,10 +312,6 @@ def compare_exact(v, game, facts, phat, pstar, theta, sweeps, label):
                                         f"allowed gap theta*(T+1)={tol(theta, T, ps):.3g} (theta={theta}, T={float(T):.3g})")
         else:
             if jac is None:
-                res = bellman_reach(game, phat)
-                worst = max(abs(a - b) for a, b in zip(res, phat))
-                if worst > theta + SLACK:
-                    v.fail("residual-above-threshold", f"{label}: |B p - p| = {worst:.3g} > theta = {theta}")
                 jac, _ = jacobi_reach(game, sweeps=sweeps)
             if ph < jac[s] - SLACK:
                 v.fail("below-k-step-value", f"{label}: state {s} reports {ph!r} after {sweeps} sweeps, "
